@@ -201,6 +201,7 @@ func (c *HybridCache[K, V]) LoadCache(version uint64, reader io.Reader) error {
 
 // Close closes all goroutines created by cache.
 func (c *HybridCache[K, V]) Close() {
+	c.store.Close()
 }
 
 type HybridLoadingCache[K comparable, V any] struct {
